@@ -1,0 +1,30 @@
+//go:build verif
+
+package tms20
+
+import (
+	"encoding/json"
+	"os"
+	"path/filepath"
+	"strings"
+)
+
+// with build tag verif, tile matrix sets in TEXEL_VERIF_TMS_DIR can be loaded as if embedded
+func init() {
+	dir := os.Getenv("TEXEL_VERIF_TMS_DIR")
+	if dir == "" {
+		return
+	}
+	files, _ := filepath.Glob(filepath.Join(dir, "*"+extJSON))
+	for _, file := range files {
+		tmsJSON, err := os.ReadFile(file)
+		if err != nil {
+			continue
+		}
+		var tms TileMatrixSet
+		if err = json.Unmarshal(tmsJSON, &tms); err != nil {
+			continue
+		}
+		embeddedTileMatrixSetsCache[strings.TrimSuffix(filepath.Base(file), extJSON)] = &tms
+	}
+}
